@@ -38,7 +38,8 @@ def tupleWordMatch (s : Str) : Bool := Regex.useTest Generated.tupleWordUse Gene
 /-- `rp.word.findall(s)` -/
 def wordFindall (s : Str) : List Str := Regex.useFindall Generated.wordUse Generated.word s
 
-/-- `rp.number_scientific.match(s)`: what follows the match (`none` = no match) -/
+/-- `rp.number_scientific` applied the way `convert_scientific_to_float` applies it (`Generated.numberScientificUse`:
+    `fullmatch` since fixes/C17/C17-scientific-fullmatch.patch, `match` before): what follows the match (`none` = no match) -/
 def sciRest (s : Str) : Option Str := Regex.useRest Generated.numberScientificUse Generated.numberScientific s
 
 def sciMatch (s : Str) : Bool := (sciRest s).isSome
@@ -229,7 +230,8 @@ end
 mutual
   /-- `sanity_scientific_notation_conversion` applied to a value held in a container:
       a string matching `number_scientific` becomes `float(s)` (`none` = float() raises ValueError,
-      modelled as "the match does not cover the whole string") -/
+      modelled as "the match does not cover the whole string" — unreachable when the pattern is applied with
+      `fullmatch`: `sciConv_str_total`, `scientific_conversion_total`) -/
   def sciConv : Y → Option Y
     | .str s =>
       match sciRest s with
